@@ -287,7 +287,13 @@ func (s *c10Store) exec1(op c10M) (obs c10M) {
 	case "fill":
 		// n keys p ++ 5-digit index in one bulk write (volume case for block-wise prefix deletes)
 		p := c10unhex(op["p"])
-		n := int(op["n"].(float64))
+		n := 0
+		switch x := op["n"].(type) {
+		case float64:
+			n = int(x)
+		case int:
+			n = x
+		}
 		err := s.kv.BulkWrite(func(bl kvi.KVBulkWrite) error {
 			for i := 0; i < n; i++ {
 				k := append(append([]byte{}, p...), []byte(fmt.Sprintf("%05d", i))...)
@@ -610,9 +616,6 @@ func c10Generate(r *Run) {
 				{"op": "fill", "p": "6162", "n": n}, {"op": "count", "p": "6162"}, {"op": "count", "p": ""},
 				{"op": "delp", "p": "6162"}, {"op": "count", "p": "6162"}, {"op": "count", "p": ""}, {"op": "dump"},
 				{"op": "fill", "p": "62", "n": n}, {"op": "delp", "p": ""}, {"op": "count", "p": ""}} {
-				if op["op"] == "fill" || op["op"] == "count" {
-					op["n"] = op["n"]
-				}
 				o := st.exec(op)
 				r.Emit(op, o)
 				r.Count("volume:" + op["op"].(string))
